@@ -1,0 +1,14 @@
+//go:build verif && amd64
+
+package dsp
+
+import "os"
+
+// Verification hook: WEBP_VERIF_NOAVX2=1 makes the package behave as on an
+// SSE2-only CPU. This file sorts after cpuid_amd64.go and before dsp_amd64.go,
+// so its init() runs between the CPUID probe and the kernel dispatch.
+func init() {
+	if os.Getenv("WEBP_VERIF_NOAVX2") == "1" {
+		hasAVX2 = false
+	}
+}
